@@ -28,6 +28,9 @@ def norm(code):
     return re.sub(r"\s+", " ", code.strip())
 
 
+SEQUENCE_MODULES = {"stateful"}
+
+
 def strip_binding(code):
     m = re.match(r"^\s*var_\d+\s*=\s*(.*)$", code, flags=re.S)
     return m.group(1) if m else code
@@ -56,12 +59,18 @@ def shard(col, module, pop_bound, limit, n_groups, with_assertions):
     scratch = tempfile.mkdtemp(prefix="c22_", dir="/dev/shm")
     try:
         pipe = pipeline.Pipe(module, scratch)
-        tests, _ = pipe.population(bound=pop_bound, limit=limit)
-        step = max(1, len(tests) // 6)
-        core = tests[::step][:6]
-        groups = [[t] for t in tests]
-        groups += [list(g) for g in itertools.islice(itertools.combinations(core, 2), n_groups)]
-        groups += [list(g) for g in itertools.islice(itertools.combinations(core, 3), n_groups // 2)]
+        if module in SEQUENCE_MODULES:
+            # small stateful API: every call sequence of <= 3 accessibles, all pairs of the short ones
+            tests = pipe.population_sequences(3)
+            short = [t for t in tests if t.size() <= 3]
+            groups = [[t] for t in tests] + [list(g) for g in itertools.combinations(short, 2)]
+        else:
+            tests, _ = pipe.population(bound=pop_bound, limit=limit)
+            step = max(1, len(tests) // 6)
+            core = tests[::step][:6]
+            groups = [[t] for t in tests]
+            groups += [list(g) for g in itertools.islice(itertools.combinations(core, 2), n_groups)]
+            groups += [list(g) for g in itertools.islice(itertools.combinations(core, 3), n_groups // 2)]
         import pynguin.testcase.testcase as tcm
         import_only = fresh_coverage(pipe, pipe.suite([tcm.TestCase()]))
         for gi, group in enumerate(groups):
@@ -149,8 +158,8 @@ def shard(col, module, pop_bound, limit, n_groups, with_assertions):
 
 
 def run(ctx):
-    modules = ["numeric", "containers", "shapes"] if ctx.quick else \
-        ["numeric", "containers", "shapes", "strings", "raising"]
+    modules = ["numeric", "containers", "shapes", "stateful"] if ctx.quick else \
+        ["numeric", "containers", "shapes", "strings", "raising", "stateful"]
     jobs = []
     for m in modules:
         for wa in (False, True):
